@@ -197,7 +197,8 @@ func (propC10) Draw(rt *rapid.T, w *WorldDesc, mode string) *Plan {
 			p.Hook.StatusOnlyFor = rapid.SampledFrom([][]string{{"err-custom"}, {"err-custom", "err-wrapped-custom"}, {"err-plain"}, {"header", "url", "body", "rule"}}).Draw(rt, "hook.selfor")
 		}
 	case 6:
-		p.Hook = &HookPlan{Present: true, WriteBody: "hook wrote this", Status: rapid.SampledFrom([]int{0, 451}).Draw(rt, "hook.wstatus")}
+		p.Hook = &HookPlan{Present: true, WriteBody: "hook wrote this", Status: rapid.SampledFrom([]int{0, 451}).Draw(rt, "hook.wstatus"),
+			WriteVia: rapid.SampledFrom([]string{"", "string", "copy"}).Draw(rt, "hook.wvia")}
 	}
 	if p.Hook != nil && rapid.IntRange(0, 2).Draw(rt, "hook.scope") == 0 {
 		// two registrations with different options in one process: only some services get the hook
